@@ -16,7 +16,7 @@ from contracts import varint_common as V
 
 LEVEL = 'proof'
 TRUSTED = ['A-BITS: truncation modulo 2**64 is a homomorphism for + * ^ | & << and for (x >> s) & m with m < 2**(64-s) on Python ints (the engine refuses anything else)',
-           'E-STRUCT for body_and_tail ("<qq..." little-endian signed blocks, "b" signed tail bytes): contract assumed, probed natively (bounded)',
+           'body_and_tail: its contract (little-endian signed words, signed tail bytes, length) is what the _murmur3 harness stubs it with; discharged by the body_and_tail harness for 0..2 whole blocks x every tail length under E-STRUCT (struct.unpack_from incl. a negative offset; single-byte codes read the same in native mode), longer keys by the repetition of the format string (stated bound) and the bounded stand-in',
            'E-MD5: hashlib.md5(key).digest() is an arbitrary 16-byte string for the proof; real digests in the bounded stand-in',
            'induction over the number of 16-byte blocks is carried by the loop invariant over the uninterpreted fold G'] + V.LEMMAS[1:2]
 EXPLANATION = 'bit-vector (low-64) symbolic execution of the real _murmur3/rotl64/fmix against the transcribed Java; truncate_int64 and token normalisation over mathematical ints'
@@ -224,3 +224,33 @@ def bounded_hash(tier, seed):
 
 
 BOUNDED = [bounded_hash]
+
+
+@harness('C08', 'body_and_tail', functions=[MM + 'body_and_tail'], native='contracts.native.c08:replay')
+def body_tail(vc):
+    """the splitter the hash loop is stubbed with in the `_murmur3` harness, now discharged instead of assumed: for keys of 0, 1 or 2 whole 16-byte blocks
+    followed by every tail length 0..15 (the format strings are built by repetition from those two numbers; stated bound) with symbolic content:
+    ensures body is the consecutive 8-byte words of the key read little-endian and signed, tail is the last len % 16 bytes - and only those - read as signed
+    bytes in order, and the length is the key's length"""
+    nb = vc.choice('whole_blocks', [0, 1, 2])
+    tl = vc.choice('tail_len', list(range(16)))
+    n = 16 * nb + tl
+    bs = [vc.int('key_byte_%d' % i) for i in range(n)]
+    for b in bs:
+        vc.assume(sym.and_(b >= 0, b <= 255))
+    units = [z3.Unit(b.t) for b in bs]
+    data = SBytes(z3.Empty(sym.ByteSeq) if n == 0 else (units[0] if n == 1 else z3.Concat(*units)))
+    body, tail, total = vc.call(MM + 'body_and_tail', data)
+    vc.check('post/length', total == n)
+    byte = lambda i: bs[i]
+    vc.check('post/body-has-two-words-per-block', len(body) == 2 * nb)
+    for w in range(min(len(body), 2 * nb)):
+        u = 0
+        for j in range(8):
+            u = u + byte(8 * w + j) * (256 ** j)
+        signed = sym.ite(u >= 2 ** 63, u - 2 ** 64, u)
+        vc.check('post/word-%d-is-the-little-endian-signed-word-at-its-offset' % w, body[w] == signed)
+    vc.check('post/tail-has-len-mod-16-bytes', len(tail) == tl)
+    for j in range(min(len(tail), tl)):
+        b = byte(16 * nb + j)
+        vc.check('post/tail-bytes-are-the-last-bytes-in-order-signed', tail[j] == sym.ite(b >= 128, b - 256, b))
